@@ -53,10 +53,18 @@ def shard_into(acc, shard, nshards, tier, idx0):
         run_program(acc, space, None, CLASSES, mspecs, names, sigma, 3 if body == "pair" else None, body,
                     annotate=annot.annotate)
     gen.purge_globals()
+    shard_kw(acc, shard, nshards, tier, idx)
 
 
 def replay(case):
     import ast
+
+    if case["space"].startswith("k:"):
+        names, sigma = kw_sigma()
+        model = KwModel(tuple(case["methods"]), sigma)
+        p = model.build(tuple(case["history"]))
+        out = model.apply(p, case["op"])
+        return list(model.check(tuple(case["history"]), case["op"], out, p))
 
     mspecs = case["methods"]
     sigma = [(tuple(ast.literal_eval(x) for x in names), {}) for names in case["sigma"]]
@@ -64,3 +72,121 @@ def replay(case):
     p = model.build(tuple(case["history"]))
     out = model.apply(p, case["op"])
     return list(model.check(tuple(case["history"]), case["op"], out, p))
+
+
+# ----------------------------------------------------------------------------------------
+# family K: keyword-only typed parameters, and recurse / call_next sites that pass them in another order
+
+import linecache  # noqa: E402
+
+from ovld import Ovld, call_next, recurse  # noqa: E402
+
+
+class KA:
+    pass
+
+
+class KB(KA):
+    pass
+
+
+_KSRC = '''
+def h1(x: str, *, a: KB, b: object):
+    LOG.append((1, None))
+    return ("h1",)
+
+
+def h2(x: str, *, a: object, b: KA):
+    LOG.append((2, None))
+    return ("h2",)
+
+
+def h3(x: str, *, a: KA, b: KB):
+    LOG.append((3, None))
+    return ("h3",)
+
+
+def swap(x: int, *, a: object, b: object):
+    LOG.append((4, None))
+    return ("swap", recurse(str(x), b=b, a=a))
+
+
+def nxt(x: str, *, a: KB, b: KB):
+    LOG.append((5, None))
+    return ("nxt", call_next(x, b=b, a=a))
+'''
+_KFN = "<vtgen:c04:kw>"
+linecache.cache[_KFN] = (len(_KSRC), None, _KSRC.splitlines(True), _KFN)
+
+KPOOL = ["h1", "h2", "h3", "swap", "nxt"]
+KVALS = {"A": KA(), "B": KB(), "O": object()}
+
+
+class KwProgram:
+    def __init__(self, names):
+        self.log = []
+        glb = {"LOG": self.log, "KA": KA, "KB": KB, "recurse": recurse, "call_next": call_next, "__name__": "vtgen"}
+        exec(compile(_KSRC, _KFN, "exec"), glb, glb)
+        gen._FACTORY_GLOBALS.append(glb)
+        self.ov = Ovld()
+        for n in names:
+            self.ov.register(glb[n], priority=1 if n == "nxt" else 0)
+
+    def call(self, args, kwargs):
+        del self.log[:]
+        return gen.run_call(getattr(self.ov, "dispatch", self.ov), args, kwargs, self.log)
+
+
+class KwModel(CallModel):
+    def __init__(self, names, sigma):
+        self.names = names
+        self.sigma = sigma
+        self.baseline = {}
+        from .c04 import norm
+        for i in range(len(sigma)):
+            self.baseline[i] = norm(self.fresh().call(*self.sigma[i]))
+        from . import e2
+        self.use_snapshot = e2.snapshot_ovld(self.fresh().ov) is not None
+
+    def fresh(self):
+        return KwProgram(self.names)
+
+
+def kw_sigma():
+    names, sigma = [], []
+    for x in ("s", 1):
+        for a in "OAB":
+            for b in "OAB":
+                names.append((repr(x), f"a={a}", f"b={b}"))
+                sigma.append(((x,), {"a": KVALS[a], "b": KVALS[b]}))
+    return names, sigma
+
+
+def kw_programs(tier):
+    import itertools as it
+    for L in (2, 3, 4):
+        for combo in it.combinations(KPOOL, L):
+            if "swap" in combo or "nxt" in combo:
+                yield combo
+
+
+def shard_kw(acc, shard, nshards, tier, idx0):
+    from . import e2
+    idx = idx0
+    names, sigma = kw_sigma()
+    for combo in kw_programs(tier):
+        idx += 1
+        if idx % nshards != shard:
+            continue
+        model = KwModel(combo, sigma)
+
+        def on_violation(hist, op, disc, detail, combo=combo):
+            acc.violation({"space": "k:keyword-order", "methods": list(combo), "sigma": [list(n) for n in names], "history": list(hist), "op": op},
+                          disc, {"first_call_ever": list(detail["first_call_ever"][:2]), "after_history": list(detail["after_history"][:2])})
+
+        st = e2.bfs(model, 2 if tier == "quick" else 3, acc, on_violation=on_violation, merge_every=4)
+        acc.count("programs")
+        acc.h("programs_per_space", "k:keyword-order")
+        acc.count("nontrivial", st["states"])
+        gen.purge_globals()
+        del gen._FACTORY_GLOBALS[8:]
